@@ -175,6 +175,9 @@ func c21TM(r *rand.Rand, g *Gram, name string, o *c21Opts) string {
 		var parts []string
 		null := true
 		for _, s := range rhs {
+			if o.EmptyNodes && r.Intn(4) == 0 {
+				parts = append(parts, fmt.Sprintf("( -> %s)", typeName())) // an explicitly empty node (never last in a rule)
+			}
 			t, n := elem(s, keep)
 			parts = append(parts, t)
 			null = null && n
@@ -366,6 +369,36 @@ func c21Gram(gp *GenParser) *Gram {
 		}
 	}
 	return g
+}
+
+// c21HasEmptyRange: some node range of the COMPILED grammar (rule type or reported sub-range) can derive
+// the empty string — the input class of finding [C21-empty-node].
+func c21HasEmptyRange(gp *GenParser) bool {
+	g := c21Gram(gp)
+	nul := g.Nullable()
+	p := gp.G.Parser
+	for i, r := range p.Rules {
+		rhs := g.Rules[i].RHS
+		allNull := func(s, e int) bool {
+			for _, x := range rhs[s:e] {
+				if !nul[x] {
+					return false
+				}
+			}
+			return true
+		}
+		if r.Type >= 0 && allNull(0, len(rhs)) {
+			return true
+		}
+		if r.Action != 0 && r.Action < len(p.Actions) {
+			for _, rep := range p.Actions[r.Action].Report {
+				if rep.Start <= rep.End && rep.End <= len(rhs) && allNull(rep.Start, rep.End) {
+					return true
+				}
+			}
+		}
+	}
+	return false
 }
 
 func c21TermText(gp *GenParser, s int) string {
@@ -839,6 +872,10 @@ func c21(c *Ctx) {
 				if gp.G.Parser.Types == nil || len(gp.G.Parser.Types.RangeTypes) == 0 {
 					continue
 				}
+				if c21HasEmptyRange(gp) && !findings {
+					c.Count("avoided: a reported range can derive the empty string [C21-empty-node]")
+					continue
+				}
 				items = append(items, &c21Item{g: c21Gram(gp), gp: gp, t: newC21Types(gp), o: o})
 				break
 			}
@@ -953,7 +990,9 @@ func c21RunBatch(c *Ctx, items []*c21Item) {
 			if seqSeen[it] == nil {
 				seqSeen[it] = map[string]bool{}
 			}
-			seqSeen[it][fmt.Sprintf("%d:%s", n.typ, ints(kids))] = true
+			if !it.t.reported[n.typ] && !it.t.injected[n.typ] { // token nodes are leaves, not ranges of the grammar
+				seqSeen[it][fmt.Sprintf("%d:%s", n.typ, ints(kids))] = true
+			}
 			if len(rt.Fields) > 0 {
 				line := fmt.Sprintf("access %s %s", it.t.fieldsStr(rt), ints(n.kids))
 				if !accSeen[line] {
